@@ -77,8 +77,6 @@ def oracle_fan(case, ctx):
     a = [[0, h - 1], [0, w - 1]]
     A = objs.build_area(a)
     rays = guarded(ctx, 'compute_rays_fancy', rt.compute_rays_fancy, Position(y, x), A)
-    if len(rays) != (h + 1) * (w + 1):
-        ctx.fail(f'fan from {(y, x)} in {h}x{w} has {len(rays)} rays, one per cell corner would be {(h + 1) * (w + 1)}', {'kind': 'fan_size'})
     check_fan(ctx, rays, (y, x), a, f'{h}x{w}')
     # deterministic, cached == uncached
     again = rt.compute_rays_fancy(Position(y, x), A)
